@@ -68,6 +68,17 @@ def to_arg(case, z):
     return q, F(float(teff)), False
 
 
+def interp_fft(x, t, n):
+    """same interpolation for long signals: numpy.fft in complex128"""
+    N = x.shape[0]
+    X = np.fft.fft(x.astype(np.complex128), axis=0)
+    k = O.fftfreq_int(N).astype(np.float64)
+    fr = float(t - int(t))
+    ph = np.exp(2j * np.pi * ((k * fr / N) % 1.0)).reshape((N,) + (1,) * (x.ndim - 1))
+    y = np.fft.ifft(X * ph, axis=0)[int(t) : int(t) + n]
+    return y if np.iscomplexobj(x) else y.real
+
+
 def interp(x, t, n):
     """band-limited value of x (N, ...) at t + k, k = 0..n-1 (t Fraction)"""
     N = x.shape[0]
@@ -113,7 +124,7 @@ def run_snip(case, stt):
         i = int(teff)
         check(bits_equal(np.asarray(y.data), x[i : i + n]), "whole-sample request t={} is not exactly z[t:t+n]", i)
     elif n > 0:
-        ref = interp(x, teff, n)
+        ref = interp(x, teff, n) if N <= 256 else interp_fft(x, teff, n)
         scale = float(np.max(np.abs(x)))
         tol = 2e-6 * (1 + math.log2(max(N, 2))) * scale
         err = float(np.max(np.abs(np.asarray(y.data) - ref)))
@@ -125,6 +136,18 @@ def run_snip(case, stt):
     stt.label("dtype_" + spec["dtype"])
     stt.label("N_odd" if N % 2 else "N_even")
     stt.label("rate_unit_" + spec["sr"]["u"])
+
+
+@st.composite
+def long_case(draw):
+    N = draw(st.sampled_from([1500, 2048, 3001, 4096, 5000]))
+    spec = draw(G.signal_spec(classes=["Signal", "BasebandSignal", "IntensitySignal"], nmin=N, nmax=N, dtypes=FLOATS, nchan_max=2, max_trailing=0,
+                              data_kinds=("noise",)))
+    spec["n"] = N
+    n = draw(st.sampled_from([1, 8, 16, 32, 100, N // 2]))
+    i = draw(st.integers(0, N - n - 1))
+    return {"sig": spec, "form": draw(st.sampled_from(["float", "float", "dur", "time" if spec["t0"] else "float"])), "i": i,
+            "frac": draw(st.sampled_from([256, 512, 1, 1023, 0, 333])), "n": n, "dur_unit": "s"}
 
 
 @st.composite
@@ -170,6 +193,9 @@ SUBS = [
         "every class, N 1..128, f4/f8/c8/c16, with/without start time, rates mHz..GHz in every unit; t as int / float (whole or k/1024 "
         "fractional) / duration in s..min / k*dt / absolute Time; n 0..N incl. requests ending at the last sample; non-trivial = fractional t, "
         "or t+n == N, or n in {0, N}, or a duration/Time form", quick=4000, thorough=80000, pieces_quick=6),
+    Sub("long_signals", long_case(), run_snip,
+        "N in {1500..5000}, short and long snippets anywhere in the signal, fractional starts (numpy.fft complex128 interpolation of the WHOLE "
+        "signal as reference); non-trivial as above", quick=300, thorough=5000, pieces_quick=4),
     Sub("refusals", bad_case(), run_bad, "t < 0, t+n > len (whole, fractional, as Time), negative n, Time without start time -> ValueError", quick=300,
         thorough=4000),
 ]
